@@ -905,6 +905,53 @@ fn native_spec() {
                 println!("SPEC-REPLAY MISMATCH target=bin_name_twins case={what}: help rendered by a definition used for two earlier parses differs from a fresh one: {diff}");
             }
         }
+    } else if target == "inference_candidates" {
+        // C08/C09/C10: with infer_subcommands a unique prefix of a name, a visible alias, a hidden alias, a long flag or a long-flag alias selects the subcommand
+        let mk = || {
+            Command::new("vcs")
+                .infer_subcommands(true)
+                .subcommand(Command::new("commit").visible_alias("checkin").alias("hiddenci").long_flag("commit-now").visible_long_flag_alias("checkin-now").long_flag_alias("hiddenflag"))
+                .subcommand(Command::new("push"))
+        };
+        for tok in ["commit", "comm", "checkin", "chec", "hiddenci", "hidd", "--commit-now", "--commit-n", "--checkin-now", "--checkin-n", "--hiddenflag", "--hiddenf"] {
+            match mk().try_get_matches_from(["vcs", tok]) {
+                Ok(m) if m.subcommand_name() == Some("commit") => {}
+                Ok(m) => println!("SPEC-REPLAY MISMATCH target=inference_candidates case=vcs {tok}: subcommand {:?}", m.subcommand_name()),
+                Err(e) => println!("SPEC-REPLAY MISMATCH target=inference_candidates case=vcs {tok}: rejected as {:?}", e.kind()),
+            }
+        }
+        // an ambiguous prefix selects nothing
+        if let Ok(m) = Command::new("vcs").infer_subcommands(true).subcommand(Command::new("commit")).subcommand(Command::new("compare")).try_get_matches_from(["vcs", "com"]) {
+            println!("SPEC-REPLAY MISMATCH target=inference_candidates case=vcs com (commit/compare): accepted as {:?}", m.subcommand_name());
+        }
+    } else if target == "propagate_globals" {
+        // C09: a global argument is accepted at every level (also in a user-defined subcommand named `help`), visible from each level
+        for (disable_help_sc, sub) in [(false, "run"), (true, "run"), (true, "help")] {
+            let cmd = Command::new("prog")
+                .disable_help_subcommand(disable_help_sc)
+                .arg(Arg::new("verbose").long("verbose").global(true).action(ArgAction::SetTrue))
+                .subcommand(Command::new(sub).arg(Arg::new("topic").index(1)).subcommand(Command::new("deep")));
+            for argv in [vec!["prog", sub, "--verbose"], vec!["prog", "--verbose", sub], vec!["prog", sub, "deep", "--verbose"], vec!["prog", sub, "x"]] {
+                let want = argv.contains(&"--verbose");
+                match cmd.clone().try_get_matches_from(argv.clone()) {
+                    Ok(m) => {
+                        let s1 = m.subcommand_matches(sub);
+                        let lvl = (m.get_flag("verbose"), s1.map(|s| s.get_flag("verbose")));
+                        if lvl != (want, Some(want)) {
+                            println!("SPEC-REPLAY MISMATCH target=propagate_globals case=disable_help_subcommand={disable_help_sc} {argv:?}: verbose seen as {lvl:?}, expected {want} at both levels");
+                        }
+                    }
+                    Err(e) => println!("SPEC-REPLAY MISMATCH target=propagate_globals case=disable_help_subcommand={disable_help_sc} {argv:?}: rejected as {:?}", e.kind()),
+                }
+            }
+        }
+        // a subcommand that defines the id itself keeps its own definition
+        let cmd = Command::new("prog").arg(Arg::new("v").long("v").global(true).action(ArgAction::SetTrue))
+            .subcommand(Command::new("run").arg(Arg::new("v").long("v").action(ArgAction::Set)));
+        match cmd.try_get_matches_from(["prog", "run", "--v", "val"]) {
+            Ok(m) if m.subcommand_matches("run").and_then(|s| s.get_one::<String>("v").cloned()).as_deref() == Some("val") => {}
+            other => println!("SPEC-REPLAY MISMATCH target=propagate_globals case=subcommand redefines the global's id: {:?}", other.map(|_| ()).map_err(|e| e.kind())),
+        }
     } else if target == "match_arg_error" {
         // C10: the error kind names a rule the input really breaks
         for acws in [false, true] {
